@@ -26,15 +26,17 @@ Require Gengo.Model.SumFile Gengo.Model.SumCache Gengo.Model.Dispatch Gengo.Mode
 Definition whole_enabled (G : tags) (g : bytes) (p : pkginfo) (t : tyinfo) : bool :=
   Dispatch.is_generator_enabled g (Dispatch.merge [G; pk_tags p; ty_tags t]).
 
-Definition whole_env (fmt : bytes -> option bytes) (order : pkginfo -> list (bytes * bytes) -> list (bytes * bytes))
-  (G : tags) : env := {|
+(* [fixed = false] only to replay the code before the repair of #26 (Corr/Pipe.v); the system is [whole_env] *)
+Definition whole_env_fx (fixed : bool) (fmt : bytes -> option bytes)
+  (order : pkginfo -> list (bytes * bytes) -> list (bytes * bytes)) (G : tags) : env := {|
   e_fmt := fmt;
   e_sum_load := SumFile.sumfile_load;
   e_sum_bytes := SumFile.sumfile_bytes;
   e_enabled := whole_enabled G;
   e_order := order;
-  e_fixed := true
+  e_fixed := fixed
 |}.
+Definition whole_env := whole_env_fx true.
 
 (* ---------- adapter 1: Model/SumCache.v on the pipeline's data ---------- *)
 
